@@ -39,7 +39,7 @@ def run(tier, seed):
             sc["field"], sc["hasher"], sc["ext"], sc["shape"]["n"], sc["shape"]["width"], sc["shape"]["exempt"], sc["opts"])
         if not o.get("honest_ref_valid", False):
             raise vlib.ToolError("generator error: the forward-executed trace is not valid by the reference predicate: %s" % ctx)
-        lowsec = sc["opts"]["q"] * (sc["opts"]["blowup"].bit_length() - 1) < 20
+        lowsec = sc["opts"]["q"] * (sc["opts"]["blowup"].bit_length() - 1) < 40
         for cell in o.get("cells", []):
             n_cells += 1
             if cell["ref_valid"] == cell["violated"]:
@@ -86,7 +86,7 @@ def run(tier, seed):
         "known_finding_occurrences": v.n_known, "new_violations": v.n_new,
     }, time.time() - t0, violations=v.n_new,
         assumptions=["a prover that fails on an invalid trace satisfies the property vacuously",
-                     "acceptance of an invalid trace by chance: scenarios with fewer than 20 bits of query security are not judged on the violating side"])
+                     "acceptance of an invalid trace by chance: scenarios with fewer than 40 bits of query security are not judged on the violating side"])
     return rc
 
 
